@@ -14,6 +14,14 @@
 // or the unique table; the only representation fact it uses is the mapping
 //      external count of a live terminal = rc field - 1      (the index owns one reference)
 // which is corroborated black-box by gc(): a terminal is collected iff its model count is 0.
+//
+// LISTED in suite.json (family B, symbolic hash, reserve_rehash contract stub): sym2_hashcons_two_values,
+// sym2_counts_exact, sym1_full_oom_unchanged (quick); sym1_gc_then_reuse, sym2_iter_reports_live,
+// sym3_hashcons_counts (thorough); selftest_* (must be refuted).
+// NOT listed (kept for a larger budget): real_rehash3_*, lifecycle2_realhash (family A: unmodified table code incl.
+// the shrinking rehash inside gc(); symbolic execution of reserve_rehash did not finish in 600 s), lifecycle5_*
+// and sym3_full_oom_unchanged (600 s timeout), sym2_gc_all_then_refill (CBMC out of memory under the 12 GB cap after 186 s),
+// sym3_iter_reports_live, sym5_gc_one_survivors_keep (not measured).
 #[cfg(kani)]
 mod verif_termmgr {
     use super::*;
